@@ -2,6 +2,7 @@
    That k256 and libsecp256k1 implement the same curve equation / point validity is a fact about two
    foreign libraries: sampled in the correspondence run, not proved. *)
 Require Import Enr.Bytes Enr.Consts Enr.Rlp Enr.SortedMap Enr.Keccak Enr.Record.
+Require Import Enr.Update Enr.Spec EnrProofs.Thm_CrossValid.
 Require Import EnrProofs.Thm_Misc EnrProofs.Thm_Backends.
 Open Scope N_scope.
 
@@ -65,3 +66,47 @@ Print Assumptions decode_comb_split.
 Theorem decode_split : forall (c : crypto) kt b, decode c kt b = (do x <- parse_pairs b; finish_decode c kt x).
 Proof. exact Thm_Backends.decode_split. Qed.
 Print Assumptions decode_split.
+
+(* ---- "a record signed through any of them is accepted by all" ---- *)
+Theorem valid_k256_iff_libsecp : forall (c : crypto) r, Valid c K256 r <-> Valid c LibSecp r.
+Proof. exact Thm_CrossValid.valid_k256_iff_libsecp. Qed.
+Print Assumptions valid_k256_iff_libsecp.
+
+Theorem valid_comb_split : forall (c : crypto) r,
+  Valid c Comb r ->
+  (exists p, secp_to_public c (content r) = Ok p /\ Valid c K256 r /\ Valid c LibSecp r) \/
+  ((forall p, secp_to_public c (content r) <> Ok p) /\ Valid c Ed r).
+Proof. exact Thm_CrossValid.valid_comb_split. Qed.
+Print Assumptions valid_comb_split.
+
+Theorem secp_record_accepted_by_all : forall (c : crypto) r rest,
+  Valid c K256 r \/ Valid c LibSecp r ->
+  decode c K256 (encode r ++ rest) = Ok (r, rest) /\
+  decode c LibSecp (encode r ++ rest) = Ok (r, rest) /\
+  decode c Comb (encode r ++ rest) = Ok (r, rest).
+Proof. exact Thm_CrossValid.secp_record_accepted_by_all. Qed.
+Print Assumptions secp_record_accepted_by_all.
+
+Theorem ed_record_accepted_by_comb : forall (c : crypto) r rest,
+  Valid c Ed r -> (forall p, secp_to_public c (content r) <> Ok p) ->
+  decode c Ed (encode r ++ rest) = Ok (r, rest) /\ decode c Comb (encode r ++ rest) = Ok (r, rest).
+Proof. exact Thm_CrossValid.ed_record_accepted_by_comb. Qed.
+Print Assumptions ed_record_accepted_by_comb.
+
+Theorem built_by_k256_accepted_by_all : forall (c : crypto) sq calls k sg r rest,
+  sq < 2 ^ 64 -> Forall bcall_ok calls -> key_bytes_ok k -> KeyOk c K256 k -> GoodSigner c k sg ->
+  build c K256 sq calls k sg = Ok r ->
+  decode c K256 (encode r ++ rest) = Ok (r, rest) /\
+  decode c LibSecp (encode r ++ rest) = Ok (r, rest) /\
+  decode c Comb (encode r ++ rest) = Ok (r, rest).
+Proof. exact Thm_CrossValid.built_by_k256_accepted_by_all. Qed.
+Print Assumptions built_by_k256_accepted_by_all.
+
+Theorem updated_by_comb_accepted : forall (c : crypto) r o k sg x r' rest,
+  Valid c Comb r -> op_ok o -> key_bytes_ok k -> KeyOk c Comb k -> GoodSigner c k sg ->
+  step c Comb r o k sg = (Ok x, r') ->
+  decode c Comb (encode r' ++ rest) = Ok (r', rest) /\
+  ((decode c K256 (encode r' ++ rest) = Ok (r', rest) /\ decode c LibSecp (encode r' ++ rest) = Ok (r', rest)) \/
+   decode c Ed (encode r' ++ rest) = Ok (r', rest)).
+Proof. exact Thm_CrossValid.updated_by_comb_accepted. Qed.
+Print Assumptions updated_by_comb_accepted.
